@@ -44,8 +44,13 @@ def mask_specs(ctx):
             cfg = gen.gen_opt_config(rng, name, space) if rng.random() < 0.3 else {}
             if name in ("GeneticAlgorithmOptimizer", "DifferentialEvolutionOptimizer"):
                 cfg.pop("population", None)
+            feas_, desc_ = None, None
+            if rng.random() < 0.25 and int(np.prod([len(v) for v in space.values()])) >= 6 and name != "GridSearchOptimizer":   # grid search under constraints: findings F-D5 / F-D7 of C08 / C02
+                # under constraints too: "legal points afterwards" includes satisfying them (the fallbacks taken while no finite score exists)
+                feas_, desc_ = gen.gen_constraint(rng, space, kind=rng.choice(["halfspace", "band", "parity"]))
+                init = {"random": n_inits}
             out.append(dict(name=name, space=space, table=table, mask=script, calls=[dict(n_iter=n_iter, memory=False, verbosity=False)],
-                            seed=rng.randrange(10 ** 6), init=init, cfg=cfg, meta=meta, feasible=None))
+                            seed=rng.randrange(10 ** 6), init=init, cfg=cfg, meta=meta, feasible=feas_, constraint_desc=desc_))
     return out
 
 
@@ -109,6 +114,9 @@ def monitor(ctx, spec, out):
         return
     # legal points afterwards
     c01.monitor(ctx, spec, out)
+    if spec.get("feasible") is not None:
+        from props import c02 as _c02
+        _c02.monitor(ctx, spec, out)
 
 
 def interleaved(ctx):
